@@ -651,14 +651,16 @@ def esc_text(v):
     return v.replace('&', '&amp;').replace('<', '&lt;').replace('>', '&gt;')
 
 
-def to_markup(nodes, xml=False):
+def to_markup(nodes, xml=False, attr_esc=None):
+    """attr_esc: how an attribute value is written between the double quotes (default esc_attr)."""
+    ea = attr_esc or esc_attr
     out = []
     for n in nodes:
         if n[0] == 'e':
             _, name, prefix, ns, attrs, kids = n
             qn = f'{prefix}:{name}' if prefix else name
-            a = ''.join(f' {k}="{esc_attr(" ".join(v) if isinstance(v, list) else v)}"' for k, v in attrs)
-            inner = to_markup(kids, xml)
+            a = ''.join(f' {k}="{ea(" ".join(v) if isinstance(v, list) else v)}"' for k, v in attrs)
+            inner = to_markup(kids, xml, attr_esc)
             if xml and not inner:
                 out.append(f'<{qn}{a}/>')
             else:
